@@ -6,6 +6,10 @@ props = [json.loads(l) for l in open(os.path.join(V, 'properties.jsonl'))]
 
 # id -> (level, engine, technique, level text, level note, design_ref)
 CHECKS = {
+ 'C19': ('model_checking', 'E2-seq + E1-sched', 'exhaustive Add histories (depth<=3) x clock ticks and stateless DFS over all interleavings of concurrent appenders (Touch/GetAttr/Put) with tick placements, real wal.WAL in a synctest bubble, listing battery against a sorted-map model',
+         'All sequential histories up to 3 appends over 5 payload classes with a second-boundary choice between steps, and all interleavings of 2 (thorough 3) appenders at store-call granularity with clock ticks; after each, every listing (from issued and synthetic tokens, max 1/2/3/1000) is compared with the model.',
+         'Store listing honours a start key (reference store semantics); fake clock; KSUID randomness seeded.',
+         'DESIGN.md §3 C19'),
  'C06': ('model_checking', 'E1-sched', 'crash-point enumeration (before/after every store write) with observer battery + retry, and preemption-bounded DFS of a concurrent reader battery against the in-flight operation, on the real code in a synctest bubble',
          'Every store write (blob, metadata, vmetadata) of upload / empty upload / diamond commit / label move / new label is a crash point in both variants; after each crash the complete observer battery (listing at 4 page sizes, latest, exists, full download of every visible bundle, labels) runs, the operation is retried and the battery runs again; a concurrent reader runs the same battery under all interleavings with <=2 (thorough 3) preemptions; a journal monitor checks that nothing under a visible bundle is ever written again.',
          'History fixed to 2 bundles + 1 label (+1 diamond with 2 splits); one crash per execution; reader interleavings at metadata-call granularity.',
